@@ -5,5 +5,18 @@ func init() {
 	Register("C15", []Target{
 		{Pkg: "time", Func: "Now", Oracle: true},
 		{Pkg: ".../verifier/crl", Func: "checkExpiry"},
+		{Pkg: "crypto/x509", Type: "RevocationList", Opaque: true, Views: map[string]string{"NextUpdate": "time.Time", "Raw": "[]byte"}},
+		{Pkg: "crypto/x509", Func: "ParseRevocationList", Oracle: true},
+		{Pkg: "crypto/sha256", Func: "Sum256", Oracle: true},
+		{Pkg: "encoding/hex", Func: "EncodeToString", Oracle: true},
+		{Pkg: "encoding/json", Func: "Marshal", Oracle: true},
+		{Pkg: "encoding/json", Func: "Unmarshal", Oracle: true},
+		{Pkg: "os", Func: "ReadFile", Oracle: true},
+		{Pkg: "path/filepath", Func: "Join", Oracle: true},
+		{Pkg: "errors", Func: "Is", Oracle: true},
+		{Pkg: ".../internal/file", Func: "WriteFile", Oracle: true},
+		{Pkg: ".../verifier/crl", Func: "(*FileCache).fileName"},
+		{Pkg: ".../verifier/crl", Func: "(*FileCache).Set"},
+		{Pkg: ".../verifier/crl", Func: "(*FileCache).Get"},
 	})
 }
